@@ -18,9 +18,25 @@
    it (epoll_pwait2 ENOSYS/EPERM, eventfd/eventfd2 ENOSYS, timerfd_create ENOSYS, ppoll ENOSYS);
    the oracle itself is the same in s and s'.  FL is a
    preorder and every operation of the model satisfies it (for both outcomes R s' and Halt s').
-   The idempotence lemmas at the end say that a write stores a value determined by the kernel's
-   answer alone, which is a function of the constant oracle: two threads that write the same flag
-   concurrently store the same value.  *)
+
+   Idempotence.  For epoll_pwait2, ppoll and timerfd_create the kernel's answer is a function of the
+   constant oracle, so a write stores a value determined by the oracle alone (lemmas
+   pwait2_cleared_iff, ppoll_switched_iff, timerfd_switched_iff): two threads that write the same
+   flag concurrently store the same value.  For the two eventfd_in_use flags this is no longer true
+   as stated: eventfd2 / eventfd may start failing after efd_ok descriptors have been created
+   (faults.efd_ok), so the kernel's answer varies in time.  What remains, and is proved here:
+     - monotonicity (FL) is unaffected: a flag moves only downwards, and only if the oracle has the
+       fault (no_eventfd || no_eventfd2);
+     - the answer depends on the oracle and on ONE more bit, `efd_cut k` (are the eventfd faults in
+       effect yet); that bit is itself one-way: false -> true only (efd_cut_mono: the creation
+       counter never decreases);
+     - the value a grab stores is grab_flag(oracle, cut, old value) (grab_spec); before the cut a
+       grab leaves the flag alone (grab_flag_nocut); at a given cut status the write is idempotent
+       (grab_flag_idem); writes made at different cut status compose, in either order, to the write at
+       the later status (grab_flag_compose).  Hence two unsynchronised writers can store different
+       values only if the cut fell between their system calls, both values are legal positions of
+       the one-way flag, and whichever store wins, the next grab brings the flag to the same final
+       value.  *)
 From Coq Require Import List ZArith Bool Lia.
 From Ivv Require Import Core.Kernel Core.CoreTypes Core.CoreFd Core.CoreModel.
 From Ivv Require Timer.HeapModel.
@@ -299,32 +315,90 @@ Proof.
     rewrite ?fv_make_ready; reflexivity.
 Qed.
 
-(* ---- eventfd_grab: the new value of eventfd_in_use is a function of the oracle and the old value ---- *)
-Definition grab_flag (f : faults) (u : Z) : Z :=
-  let old (u : Z) := if u =? 0 then 0 else if emfile f then u else if no_eventfd f then 0 else u in
-  if u =? 2 then (if emfile f then 2 else if no_eventfd f || no_eventfd2 f then old 1 else 2) else old u.
+(* ---- eventfd_grab: the new value of eventfd_in_use is a function of the oracle, of whether the eventfd
+   faults are in effect yet (efd_cut: they start after efd_ok creations), and of the old value ---- *)
+Definition grab_flag (f : faults) (cut : bool) (u : Z) : Z :=
+  let ne := cut && no_eventfd f in
+  let ne2 := cut && no_eventfd2 f in
+  let old (u : Z) := if u =? 0 then 0 else if emfile f then u else if ne then 0 else u in
+  if u =? 2 then (if emfile f then 2 else if ne || ne2 then old 1 else 2) else old u.
 
 Lemma grab_spec : forall k u k1 r u', eventfd_grab k u = (k1, r, u') ->
-  flt k1 = flt k /\ u' = grab_flag (flt k) u.
+  flt k1 = flt k /\ u' = grab_flag (flt k) (efd_cut k) u.
 Proof.
   intros k u k1 r u' H. unfold eventfd_grab, k_eventfd, k_alloc, grab_flag in *.
+  destruct (efd_cut k) eqn:CUT;
   destruct (u =? 2) eqn:E2; destruct (emfile (flt k)) eqn:EM; destruct (no_eventfd (flt k)) eqn:NE;
     destruct (no_eventfd2 (flt k)) eqn:NE2; destruct (u =? 0) eqn:E0; cbn in H;
-    rewrite ?EM, ?NE, ?NE2 in H; cbn in H; inversion H; subst; split; reflexivity.
+    rewrite ?CUT, ?EM, ?NE, ?NE2 in H; cbn in H; inversion H; subst; split; reflexivity.
 Qed.
 
-Lemma grab_flag_le : forall f u, efd_le f (grab_flag f u) u.
+Lemma grab_flag_le : forall f c u, efd_le f (grab_flag f c u) u.
 Proof.
-  intros f u. unfold grab_flag, efd_le.
-  destruct (u =? 2) eqn:E2; destruct (emfile f); destruct (no_eventfd f); destruct (no_eventfd2 f);
+  intros f c u. unfold grab_flag, efd_le.
+  destruct c; destruct (u =? 2) eqn:E2; destruct (emfile f); destruct (no_eventfd f); destruct (no_eventfd2 f);
     destruct (u =? 0) eqn:E0; cbn; try (left; reflexivity); try (left; lia); right; split; try reflexivity; lia.
 Qed.
 
-Lemma grab_flag_idem : forall f u, grab_flag f (grab_flag f u) = grab_flag f u.
+(* before the cut a grab leaves the flag alone *)
+Lemma grab_flag_nocut : forall f u, u = 0 \/ u = 1 \/ u = 2 -> grab_flag f false u = u.
 Proof.
-  intros f u. unfold grab_flag.
-  destruct (u =? 2) eqn:E2; destruct (emfile f); destruct (no_eventfd f); destruct (no_eventfd2 f);
+  intros f u H. unfold grab_flag. destruct H as [->|[->| ->]]; cbn; destruct (emfile f); reflexivity.
+Qed.
+
+(* at a given cut status the write is idempotent *)
+Lemma grab_flag_idem : forall f c u, grab_flag f c (grab_flag f c u) = grab_flag f c u.
+Proof.
+  intros f c u. unfold grab_flag.
+  destruct c; destruct (u =? 2) eqn:E2; destruct (emfile f); destruct (no_eventfd f); destruct (no_eventfd2 f);
     destruct (u =? 0) eqn:E0; cbn; rewrite ?E2, ?E0; cbn; try reflexivity; try lia.
+Qed.
+
+(* writes made at different cut status compose to the write at the later status, in either order *)
+Lemma grab_flag_compose : forall f c1 c2 u, u = 0 \/ u = 1 \/ u = 2 ->
+  grab_flag f c2 (grab_flag f c1 u) = grab_flag f (c1 || c2) u.
+Proof.
+  intros f c1 c2 u H. destruct c1, c2; cbn [orb].
+  - apply grab_flag_idem.
+  - apply grab_flag_nocut. unfold grab_flag.
+    destruct H as [->|[->| ->]]; cbn; destruct (emfile f); destruct (no_eventfd f); destruct (no_eventfd2 f); cbn; tauto.
+  - rewrite (grab_flag_nocut f u H). reflexivity.
+  - rewrite (grab_flag_nocut f u H). apply grab_flag_nocut. exact H.
+Qed.
+
+(* the cut status is one-way: the creation counter only grows *)
+Definition nefd_le (k k' : kernel) : Prop := nefd k <= nefd k' /\ flt k' = flt k.
+
+Lemma efd_cut_mono : forall k k', nefd_le k k' -> efd_cut k = true -> efd_cut k' = true.
+Proof.
+  intros k k' [N F] C. unfold efd_cut in *. rewrite F. apply Z.leb_le. apply Z.leb_le in C. lia.
+Qed.
+
+Lemma nefd_eventfd : forall k b, nefd_le k (fst (k_eventfd k b)).
+Proof.
+  intros k b. unfold k_eventfd, nefd_le. destruct (emfile (flt k)); [cbn; split; [lia|reflexivity]|].
+  destruct (efd_cut k && _); cbn; split; try reflexivity; lia.
+Qed.
+
+Lemma nefd_grab : forall k u, nefd_le k (fst (fst (eventfd_grab k u))).
+Proof.
+  intros k u. unfold eventfd_grab.
+  assert (OLD : forall k0 u0, nefd_le k k0 ->
+    nefd_le k (fst (fst (if negb (u0 =? 0) then
+      match k_eventfd k0 false with
+      | (k1, inl fd) => (k1, inl fd, u0)
+      | (k1, inr e) => if is_enosys e then (k1, @inr Z errno ENOSYS, 0) else (k1, inr e, u0)
+      end
+    else (k0, inr ENOSYS, 0))))).
+  { intros k0 u0 [N0 F0]. destruct (negb (u0 =? 0)); [|split; assumption].
+    pose proof (nefd_eventfd k0 false) as [N1 F1].
+    destruct (k_eventfd k0 false) as [k1 [fd|e]]; cbn [fst] in *; [split; [lia|congruence]|].
+    destruct (is_enosys e); cbn [fst]; split; first [lia|congruence]. }
+  destruct (u =? 2).
+  - pose proof (nefd_eventfd k true) as [N1 F1].
+    destruct (k_eventfd k true) as [k1 [fd|e]]; cbn [fst] in *; [split; [lia|congruence]|].
+    destruct (is_enosys e || is_einval e); [apply OLD; split; assumption|cbn [fst]; split; assumption].
+  - apply OLD. split; [lia|reflexivity].
 Qed.
 
 (* ---- small pieces of Core/CoreModel.v ---- *)
@@ -354,7 +428,7 @@ Qed.
 Lemma fv_raw_post : forall s j, fv (raw_post s j) = fv s.
 Proof.
   intros. unfold raw_post.
-  destruct (efd_raw s =? 0);
+  destruct (raw_is_pipe s j);
     match goal with |- context [k_write ?a ?b ?c ?d] => pose proof (flt_write a b c d) as F; destruct (k_write a b c d) as [k1 x] end;
     simpl in F; apply fv_kern; exact F.
 Qed.
@@ -366,7 +440,7 @@ Qed.
 Lemma Kr_raw_unregister : forall s j, Kr s (raw_unregister s j).
 Proof.
   intros. unfold raw_unregister. apply Kr_bind; [apply Kr_fd_unregister|]. intro s1. unfold Kr. simpl.
-  destruct (efd_raw (do_close s1 (rw_rfd s1 j)) =? 0).
+  destruct (raw_is_pipe (do_close s1 (rw_rfd s1 j)) j).
   - transitivity (fv (do_close s1 (rw_rfd s1 j))); [|apply fv_do_close].
     transitivity (fv (do_close (do_close s1 (rw_rfd s1 j)) (rw_wfd (do_close s1 (rw_rfd s1 j)) j))); [reflexivity|apply fv_do_close].
   - transitivity (fv (do_close s1 (rw_rfd s1 j))); [reflexivity|apply fv_do_close].
@@ -400,10 +474,10 @@ Ltac fvs :=
    value); nothing else moves *)
 Lemma raw_register_fv : forall s j,
   fv (res_state (fst (raw_register s j))) =
-  (pwait2 s, efd_epoll s, grab_flag (flt (kern s)) (efd_raw s), method s, use_raw s, flt (kern s)).
+  (pwait2 s, efd_epoll s, grab_flag (flt (kern s)) (efd_cut (kern s)) (efd_raw s), method s, use_raw s, flt (kern s)).
 Proof.
   intros s j. unfold raw_register. cbv zeta.
-  set (tgt := (pwait2 s, efd_epoll s, grab_flag (flt (kern s)) (efd_raw s), method s, use_raw s, flt (kern s))).
+  set (tgt := (pwait2 s, efd_epoll s, grab_flag (flt (kern s)) (efd_cut (kern s)) (efd_raw s), method s, use_raw s, flt (kern s))).
   assert (T : forall s1 (got : option (Z * Z)), fv s1 = tgt ->
     fv (res_state (fst (match got with
         | None => (R s1, true)
@@ -468,11 +542,11 @@ Qed.
    when the shared kick descriptor is created; nothing else moves *)
 Lemma rx_on_fv : forall s,
   fv (res_state (fst (event_rx_on s))) =
-  (pwait2 s, (if active_ref s =? 0 then grab_flag (flt (kern s)) (efd_epoll s) else efd_epoll s),
+  (pwait2 s, (if active_ref s =? 0 then grab_flag (flt (kern s)) (efd_cut (kern s)) (efd_epoll s) else efd_epoll s),
    efd_raw s, method s, use_raw s, flt (kern s)).
 Proof.
   intros s. unfold event_rx_on. cbv zeta.
-  set (tgt := (pwait2 s, (if active_ref s =? 0 then grab_flag (flt (kern s)) (efd_epoll s) else efd_epoll s),
+  set (tgt := (pwait2 s, (if active_ref s =? 0 then grab_flag (flt (kern s)) (efd_cut (kern s)) (efd_epoll s) else efd_epoll s),
                efd_raw s, method s, use_raw s, flt (kern s))).
   assert (T : forall r, fv (res_state r) = tgt ->
     fv (res_state (fst (match r with
@@ -1051,7 +1125,7 @@ End WithScenario.
 Definition ex_faults : faults :=
   {| no_pwait2 := true; perm_pwait2 := false; no_timerfd := true; no_ppoll := true;
      no_eventfd2 := true; no_eventfd := false; no_create1 := false; emfile := false;
-     eintr_waits := []; eintr_ctl := 0 |}.
+     eintr_waits := []; eintr_ctl := 0; efd_ok := 0 |}.
 Definition ex_scenario (b : Z) : scenario :=
   {| sc_backend := b; sc_faults := ex_faults; sc_limit := 20;
      sc_setup := [ATmRegRel 0 5000000000; AEvReg 0; ARwReg 1];
@@ -1062,6 +1136,26 @@ Lemma flags_nonvacuous :
   fv (res_state (run_result (ex_scenario 0))) = (false, 1, 1, 0, false, ex_faults) /\
   fv (core0 (ex_scenario 2)) = (true, 2, 2, 2, false, ex_faults) /\
   fv (res_state (run_result (ex_scenario 2))) = (true, 2, 1, 3, true, ex_faults).
+Proof. repeat match goal with |- _ /\ _ => split end; vm_compute; reflexivity. Qed.
+
+(* ---- non-vacuity of the time-varying eventfd answer: eventfd2 and eventfd exist for ONE creation, then fail
+   with ENOSYS (efd_ok := 1).  Two raw events: the first registration leaves eventfd_in_use of
+   iv_event_raw_posix.c at 2 (an eventfd was created), the second drops it to 0 (pipe fall-back) ---- *)
+Definition ex_cut_faults : faults :=
+  {| no_pwait2 := false; perm_pwait2 := false; no_timerfd := false; no_ppoll := false;
+     no_eventfd2 := true; no_eventfd := true; no_create1 := false; emfile := false;
+     eintr_waits := []; eintr_ctl := 0; efd_ok := 1 |}.
+Definition ex_cut_scenario (n : nat) : scenario :=
+  {| sc_backend := 3; sc_faults := ex_cut_faults; sc_limit := 20;
+     sc_setup := firstn n [ARwReg 0; ARwReg 1; ARwUnreg 0; ARwUnreg 1];
+     sc_handlers := fun _ => []; sc_wait := fun _ => []; sc_rot := fun _ => 0 |}.
+
+Lemma flags_cut_nonvacuous :
+  fv (core0 (ex_cut_scenario 4)) = (true, 2, 2, 3, false, ex_cut_faults) /\
+  fv (res_state (run_acts (core0 (ex_cut_scenario 1)) (sc_setup (ex_cut_scenario 1)))) = (true, 2, 2, 3, false, ex_cut_faults) /\
+  fv (res_state (run_acts (core0 (ex_cut_scenario 2)) (sc_setup (ex_cut_scenario 2)))) = (true, 2, 0, 3, false, ex_cut_faults) /\
+  fv (res_state (run_result (ex_cut_scenario 4))) = (true, 2, 0, 3, false, ex_cut_faults) /\
+  grab_flag ex_cut_faults false 2 = 2 /\ grab_flag ex_cut_faults true 2 = 0.
 Proof. repeat match goal with |- _ /\ _ => split end; vm_compute; reflexivity. Qed.
 
 (* the name used in DESIGN.md / Properties_C14.v *)
